@@ -880,6 +880,16 @@ func fuzzOutcome(prog *SX, bs []byte) (string, *interp) {
 
 func init() {
 	monitors["C13"] = func(r *rng, scale int, m *monOut, tmp string) {
+		// one MakeFuzz function, many inputs in a row (the way the fuzzing engine calls it)
+		if what, ran := c13GoTest(tmp); ran {
+			m.tag("go-test-one-fuzz-function-many-inputs")
+			m.eval("go-test-fuzz-shared", true)
+			if what != "" {
+				m.violate(violation{"C13", "gotest-fuzz", what, map[string]string{"how": "a scratch test package against /repo: 70 inputs run by one function returned by MakeFuzz and by one function each"}})
+			}
+		} else {
+			m.tag("go-test-unavailable:" + what)
+		}
 		// a failure recorded on T (Fatal*, FailNow, Error*) falsifies the fuzz input even when a deferred function of the
 		// property then skips or draws past the end of the input
 		for _, src := range []string{
